@@ -72,6 +72,19 @@ META["C08"] = dict(
     design_ref="DESIGN.md section 4 / C08", note=_DBNOTE + " PARTIAL: HAVING and subqueries are not yet in the model.",
     technique="Coq proof (filter commutes with grouping) + real DB vs specification model differential with a goexpr oracle")
 
+META["C02"] = dict(
+    text=("Theorems (Props/C02.v): in the model of one table (synced WAL, reader, row-store goroutine, memstore offsets, filestore header offsets, "
+          "offset file) every history of acknowledged inserts, reads, applications, data and offsets-only flushes with kills at any step and "
+          "reopenings, followed by catch-up, reflects every row-store insert of every acknowledged passing entry exactly once; while up the table "
+          "is always exactly a prefix of the WAL and the directory is always exactly the prefix up to the persisted offset; clean Close/reopen is "
+          "the special case; the shipped per-element submission of array values is refuted by a witness trace (repaired in /repo). "
+          "Correspondence: child processes killed at armed crash points / by SIGKILL / without Close over up to 3 rounds, then per-entry "
+          "multiplicities and table rows vs the model."),
+    design_ref="DESIGN.md section 4 / C02",
+    note=("Flush is one atomic step of the model (rename is the commit point; the crash points before and after it are exercised on the real code). "
+          "Not modelled: power loss (no directory fsync), WAL internals, removal of old files, corrupted-file fallback. Known finding: array values are inserted 2n-1 times."),
+    technique="Coq proof (inductive invariant tying persisted offsets to persisted rows, over all kill points and histories) + crash-point / SIGKILL enumeration on child processes against the executable model")
+
 META["C03"] = dict(
     text=("Theorems (Props/C03.v): for the row-store model (memstore/filestore, flush with merge, truncation and raw pass-through) two "
           "histories with the same inserts read the same for every key and period whatever flushes separate them; right after a "
@@ -192,5 +205,5 @@ META["C20"] = dict(
 
 NOT_APPLICABLE = [
     {"property_id": p, "reason": _PENDING}
-    for p in ["C02", "C11"]
+    for p in ["C11"]
 ]
